@@ -11,7 +11,8 @@ struct fields are tracked by field name through every construction and assignmen
 Sources: results of ServerConfig::seed (every implementation and the virtual call), env::var(ROUGHENOUGH_SEED) (the seed as text, before decoding), kms::load_seed, EnvelopeEncryption::decrypt_seed, KmsProvider::decrypt_dek,
 reads of fields named `seed` or `signing_key`, SecretKey/SigningKey values.  Sinks: the arguments of log::__private_api::log, _print/_eprint, panic_fmt,
 the payload of unwrap/expect/unwrap_or_else(panic) when the error type can carry bytes, UdpSocket::send_to and TcpStream write payloads, the reporter's CSV writer and File writes.
-Declassifiers: len/is_empty, Signer::sign (signature), verifying_key/public_key_bytes, calc_srv_value, digests, AEAD seal output, KmsProvider::encrypt_dek.
+Declassifiers: len/is_empty, Signer::sign (signature), verifying_key/public_key_bytes, calc_srv_value, AEAD seal output, KmsProvider::encrypt_dek.  A digest of secret
+material stays secret (SHA-512(seed) is the Ed25519 private scalar); a value handed to a format macro through a hand-written Display/Debug impl is judged inside that impl.
 In addition no secret-bearing type (configuration structs, MsgSigner, LongTermKey, OnlineKey, Responder, Server) has a derived Debug or Serialize
 implementation; hand-written formatters are analysed like any other function.
 """
